@@ -213,6 +213,8 @@ class SymArray:
         idx = _conc_index(idx)
         v = lift(val)._a
         v = _coerce_obj(np.array(v, dtype=object, copy=True), self.dtype)
+        if v.ndim == 0:
+            v = v[()]
         self._a[idx] = v
 
     def copy(self, order='C'):
